@@ -690,6 +690,30 @@ pub fn oracle_program(sink: &mut Sink, line: &str, prog: &Program, run: &Run) {
     }
 }
 
+/// differences between what the successful calls of a run should have stored and what the real
+/// reader finds in the file
+pub fn roundtrip_diffs(prog: &Program, run: &Run) -> Vec<Diff> {
+    let exp = expected_scene(prog, &run.results);
+    let maxp = exp.clouds.iter().map(|c| c.points.len()).max().unwrap_or(0) + 5;
+    match guarded(|| read_scene(&run.file, maxp)) {
+        Err(p) => vec![("C08", "unreadable/panic".into(), format!("reading panicked: {p}"))],
+        Ok(Err(e)) => vec![("C16", "unreadable/error".into(), format!("the file does not read back: {e}"))],
+        Ok(Ok(got)) => {
+            let mut d = compare(&exp, &got);
+            if let Ok(mut r) = e57::E57Reader::new(std::io::Cursor::new(run.file.clone())) {
+                for (off, len, bytes) in &exp.blobs {
+                    let mut out = vec![];
+                    match r.blob(&e57::Blob::new(*off, *len), &mut out) {
+                        Ok(n) if n == *len && &out == bytes => {}
+                        _ => d.push(("C06", "blob/bytes".into(), format!("blob at {off} does not read back"))),
+                    }
+                }
+            }
+            d
+        }
+    }
+}
+
 fn all_strings(prog: &Program) -> Vec<String> {
     let mut v = vec![prog.guid.clone()];
     for s in &prog.stmts {
